@@ -125,6 +125,10 @@ Cont Brk Ret ctl3 loop_from for_each for_enum for_range for_enum_cur draw drawn 
 list_eqb nonempty hrow py_values py_sum negb andb orb""".split())
 
 
+# builtins the translated functions call: a rebinding anywhere in the module is refused
+BUILTINS_USED = {"print", "int", "len", "sum", "enumerate", "range"}
+
+
 class Env:
     def __init__(self):
         self.types = {}        # name -> type
@@ -1110,7 +1114,7 @@ def render_walk(repo=None):
     rel = "lib_guesser/pcfg_grammar.py"
     path, tree = parse(repo, rel)
     defs = class_defs(path, tree, "PcfgGrammar")
-    check_not_rebound(path, tree, {"random_walk"})
+    check_not_rebound(path, tree, {"random_walk"} | BUILTINS_USED)
     check_module_name(path, tree, "random")
     spec = dict(py="random_walk", coq="py_random_walk", params=[], ret=WALK, method=True,
                 note="the result is the triple (pt_item['pt'], pt_item['base_prob'], pt_item['prob']); "
@@ -1323,7 +1327,6 @@ EDIT_SPECS = [
     dict(py="edit_length", coq="py_edit_length", params=[("grammar", STR), ("min_length", NAT), ("max_length", NAT)],
          ret=RES, note="int('') raises ValueError: the result is [Raise]"),
 ]
-BUILTINS_USED = {"print", "int", "len", "sum", "enumerate", "range", "open"}
 
 
 def edit_rules_slice(path, fn):
@@ -1598,6 +1601,10 @@ def check_not_rebound(path, tree, names):
             for a in n.names:
                 if (a.asname or a.name) in names:
                     raise TranslateError("%s:%d: %s is imported over" % (path, n.lineno, a.name))
+        if isinstance(n, (ast.FunctionDef, ast.AsyncFunctionDef, ast.ClassDef)) and n.name in names & BUILTINS_USED:
+            raise TranslateError("%s:%d: the builtin %s is redefined" % (path, n.lineno, n.name))
+        if isinstance(n, ast.arg) and n.arg in names & BUILTINS_USED:
+            raise TranslateError("%s:%d: the builtin %s is a parameter name" % (path, n.lineno, n.arg))
 
 
 def check_module_name(path, tree, mod):
